@@ -76,9 +76,14 @@ def generate(rng, tier):
             contests[cid] = cs
             pw = rng.pick([0.5, 0.6, 0.8, 0.95])
             votes[cid] = ["w" if rng.chance(pw) else rng.pick(["l", "blank"]) for _ in range(N)]
+        oneaudit = rng.chance(0.4)
+        if oneaudit:
+            for cs in contests.values():
+                cs["audit_type"] = W.ONEAUDIT
         return {"kind": kind, "contests": contests, "votes": votes, "N": N, "first": rng.randint(2, N),
+                "oneaudit": oneaudit, "pool_every": rng.pick([0, 2, 3]), "batch": rng.pick([3, 5, 8]),
                 "err": [i for i in range(N) if rng.chance(rng.pick([0.0, 0.05]))],
-                "rate_1": rng.pick([0, 0.001, 0.05]), "rate_2": rng.pick([0, 0, 0.02]),
+                "rate_1": rng.pick([0, 0.001, 0.05, 0.1]), "rate_2": rng.pick([0, 0, 0.02, 0.05]),
                 "reps": rng.pick([None, None, rng.randint(1, 6)]), "quantile": rng.pick([0.5, 0.8]), "sim_seed": rng.getrandbits(31)}
     if kind == "direct":
         dcfg = D.gen_config(rng, mode=rng.pick(["finite", "finite", "iid"]))  # the IID tests (Kaplan-Markov/-Wald) too; N stays finite
@@ -509,7 +514,9 @@ def execute_audit(ns, out, case):
     import random
     N = case["N"]
     cids = list(case["contests"])
-    world = {"use_style": True, "max_cards": N, "contests": copy.deepcopy(case["contests"]), "audit_type": W.COMPARISON,
+    oneaudit = bool(case.get("oneaudit"))
+    world = {"use_style": True, "max_cards": N, "contests": copy.deepcopy(case["contests"]),
+             "audit_type": W.ONEAUDIT if oneaudit else W.COMPARISON,
              "error_rate_1": case["rate_1"], "error_rate_2": case["rate_2"], "reps": case["reps"], "quantile": case["quantile"],
              "sim_seed": case["sim_seed"]}
     for cs in world["contests"].values():
@@ -519,12 +526,20 @@ def execute_audit(ns, out, case):
     cvrs = []
     for i in range(N):
         v = {cid: _vote(case["votes"][cid][i], case["contests"][cid]["candidates"]) for cid in cids}
-        cvrs.append(ns.CVR(id=f"1-1-{i + 1}", votes=v, card_in_batch=i + 1, tally_pool="1-1"))
+        bsz = case.get("batch", 5)
+        b = i // bsz
+        pooled = bool(oneaudit and case.get("pool_every") and b % case["pool_every"] == 0)
+        cvrs.append(ns.CVR(id=f"1-1-{i + 1}", votes=v, card_in_batch=i + 1, tally_pool=f"1-{b}" if oneaudit else "1-1", pool=pooled))
     for i, c in enumerate(cvrs):
         c.sample_num = i
     man = pd.DataFrame([{"Tray #": "1", "Tabulator Number": "1", "Batch Number": "1", "Total Ballots": N, "VBMCart.Cart number": "1"}])
     man["cum_cards"] = man["Total Ballots"].cumsum()
     with W.quiet():
+        if oneaudit:
+            pools = ns.CVR.pool_contests(cvrs)
+            for con in contests.values():
+                for asn in con.assertions.values():
+                    asn.assorter.set_tally_pool_means(cvr_list=cvrs, tally_pools=pools, use_style=True)
         ns.Assertion.set_all_margins_from_cvrs(audit=audit, contests=contests, cvr_list=cvrs)
     if any(a.margin <= 0 for con in contests.values() for a in con.assertions.values()):
         out.ev("skip", "non-positive margin")
@@ -539,7 +554,18 @@ def execute_audit(ns, out, case):
                 if asn.proved:
                     continue
                 with W.quiet():
-                    if data_of is None:
+                    if data_of is None and oneaudit:
+                        # the ONEAudit hypothetical: this assertion's own CVR-vs-batch-mean values, a one-vote overstatement at
+                        # every int(1/rate_1)-th position and a two-vote overstatement at every int(1/rate_2)-th (the latter
+                        # prevailing where both fall), then the first crossing on that sequence
+                        d, _u = asn.mvrs_to_data(cvrs, cvrs, use_all=True)
+                        d = np.array(d, dtype=float)
+                        if audit.error_rate_1:
+                            d[np.arange(0, len(d), math.floor(1 / audit.error_rate_1))] = asn.make_overstatement(overs=1 / 2)
+                        if audit.error_rate_2:
+                            d[np.arange(0, len(d), math.floor(1 / audit.error_rate_2))] = asn.make_overstatement(overs=1)
+                        e = asn.find_sample_size(data=d, reps=audit.reps, quantile=audit.quantile, seed=audit.sim_seed)
+                    elif data_of is None:
                         e = asn.find_sample_size(data=None, rate_1=audit.error_rate_1, rate_2=audit.error_rate_2, reps=audit.reps,
                                                  quantile=audit.quantile, seed=audit.sim_seed)
                     else:
